@@ -127,6 +127,16 @@ class NDCubeSequenceBase:
         if isinstance(item, slice):
             result.data = self.data[item]
         else:
+            # Replace an Ellipsis by the slice(None)s it stands for so that the
+            # sequence item and the dropped cube axes are identified correctly.
+            item = (item,) if item is Ellipsis else tuple(item)
+            is_ellipsis = [i is Ellipsis for i in item]
+            if sum(is_ellipsis) > 1:
+                raise IndexError("an index can only have a single ellipsis ('...')")
+            if any(is_ellipsis):
+                ellipsis_idx = is_ellipsis.index(True)
+                n_missing = len(self._shape) - (len(item) - 1)
+                item = item[:ellipsis_idx] + (slice(None),) * n_missing + item[ellipsis_idx + 1:]
             if isinstance(item[0], numbers.Integral):
                 result = self.data[item[0]][item[1:]]
             else:
@@ -232,10 +242,10 @@ class NDCubeSequenceBase:
         result_cubes = []
         # All slices are initially initialised as slice(None, None, None)
         result_cubes_slice = [slice(None, None, None)] * len(self[0].data.shape)
-        # the range of the axis that needs to be sliced
-        range_of_axis = self[0].data.shape[axis]
         for ndcube in self.data:
-            for index in range(range_of_axis):
+            # the range of the axis that needs to be sliced; cubes can have
+            # different lengths along the common axis
+            for index in range(ndcube.data.shape[axis]):
                 # setting the slice value to the index so that the slices are done correctly.
                 result_cubes_slice[axis] = index
                 # appending the sliced cubes in the result_cube list
